@@ -306,6 +306,7 @@ func runC02(c *Check, a *Analysis) {
 	p := c.P
 	ls := a.Locks()
 	ruleDoneOwned(c, a, "R-DONE-OWNED")
+	ruleCompletionChanBuffered(c, a, "R-COMPLETION-CHAN", "Call")
 	ruleSweepRemoves(c, a, "R-SWEEP-REMOVES")
 	c.Rule("R-LOCK", "every access to Conn.pending / Conn.shutdown / Conn.closing happens with Conn.mutex held", 8)
 	ruleLock(c, a, "R-LOCK", "Conn", "pending", "shutdown", "closing")
